@@ -1488,7 +1488,9 @@ def _collect_block(lines: List[str], start: int) -> Tuple[List[str], int]:
     i = start + 1
     block: List[str] = []
     while i < len(lines):
-        if not lines[i].strip():
+        stripped = lines[i].strip()
+        if not stripped or stripped.startswith("#"):
+            # blank and comment-only lines never end a block, whatever their indentation
             block.append(lines[i]); i += 1; continue
         if _indent_of(lines[i]) <= base:
             break
@@ -1518,7 +1520,7 @@ def _collect_if_structure(lines: List[str], start: int) -> Tuple[List[str], int]
     while i < len(lines):
         raw = lines[i]
         text = raw.strip()
-        if not text:
+        if not text or text.startswith("#"):
             snippet.append(raw)
             i += 1
             continue
@@ -1541,7 +1543,7 @@ def _collect_try_structure(lines: List[str], start: int) -> Tuple[List[str], int
     while i < len(lines):
         raw = lines[i]
         text = raw.strip()
-        if not text:
+        if not text or text.startswith("#"):
             snippet.append(raw)
             i += 1
             continue
